@@ -6,6 +6,9 @@ import (
 	"encoding/json"
 	"flag"
 	"fmt"
+	"go/ast"
+	"go/parser"
+	"go/token"
 	"golang.org/x/tools/go/ssa"
 	"os"
 	"os/exec"
@@ -59,6 +62,9 @@ type GenCfg struct {
 	HarnessDir string   `json:"harness_dir"` // relative to the verif root; holds <package>/*.go
 	Known      string   `json:"known"`       // build-only entries: id of the open known finding this spec is the witness of (the build is expected to fail)
 	LoadRepo   bool     `json:"load_repo"`   // generate, but check a package of the repository: harnesses read the generated files (vHostFile)
+	ForbidIdent string  `json:"forbid_ident"` // build-only entries: no identifier of the generated Go files (comments excluded) may start with this prefix; the spec plants it in every free text
+	Tier       string   `json:"tier"`        // build-only entries: "thorough" = skipped in the quick tier
+	MinFiles   int      `json:"min_files"`   // build-only entries: the output must hold at least that many Go files (guards the scan against vacuity)
 }
 
 func (c CheckCfg) harnessRoot() string {
@@ -831,6 +837,9 @@ func runBuildOnly(name string, cfg CheckCfg, tier, repo, buildDir string, seed i
 	var evs []*harnessEvidence
 	violations := 0
 	for i, g := range cfg.BuildOnly {
+		if g.Tier == "thorough" && tier != "thorough" {
+			continue
+		}
 		t0 := time.Now()
 		sub := filepath.Join(buildDir, fmt.Sprintf("b%d", i))
 		os.MkdirAll(sub, 0o755)
@@ -854,6 +863,17 @@ func runBuildOnly(name string, cfg CheckCfg, tier, repo, buildDir string, seed i
 					o = o[:1500]
 				}
 				msg = "the generated code does not compile: " + o
+			}
+			if msg == "" && g.ForbidIdent != "" {
+				hits, nfiles, perr := scanForbidden(gen, g.ForbidIdent)
+				ev.Params["go_files_scanned"] = nfiles
+				if perr != "" {
+					msg = "the generated code does not parse: " + perr
+				} else if len(hits) > 0 {
+					msg = "free text of the specification became Go code in the output: " + strings.Join(hits, "; ")
+				} else if nfiles < g.MinFiles {
+					msg = fmt.Sprintf("only %d Go files generated, expected at least %d", nfiles, g.MinFiles)
+				}
 			}
 		}
 		ev.WallS = time.Since(t0).Seconds()
@@ -890,7 +910,7 @@ func runBuildOnly(name string, cfg CheckCfg, tier, repo, buildDir string, seed i
 			dir := filepath.Join(verifRoot, "replays", id)
 			os.MkdirAll(dir, 0o755)
 			rp := filepath.Join(dir, fmt.Sprintf("build-%d.json", i))
-			b, _ := json.MarshalIndent(map[string]interface{}{"property": id, "check": name, "spec": g.Spec, "args": g.Args, "more": g.More, "message": msg}, "", " ")
+			b, _ := json.MarshalIndent(map[string]interface{}{"property": id, "check": name, "spec": g.Spec, "args": g.Args, "more": g.More, "forbid_ident": g.ForbidIdent, "message": msg}, "", " ")
 			os.WriteFile(rp, b, 0o644)
 			fmt.Printf("VIOLATION property=%s replay=%s\n", id, rp)
 			first := msg
@@ -909,6 +929,40 @@ func runBuildOnly(name string, cfg CheckCfg, tier, repo, buildDir string, seed i
 	writeEvidence(name, id, tier, seed, cfg, evs, nil, time.Since(start), status, violations, 0)
 	fmt.Fprintf(os.Stderr, "[%s] %s (%.1fs)\n", id, status, time.Since(start).Seconds())
 	return rc
+}
+
+// scanForbidden parses every generated Go file and reports the identifiers (code, not comments or
+// string literals) that start with the prefix.
+func scanForbidden(root, prefix string) (hits []string, nfiles int, perr string) {
+	fset := token.NewFileSet()
+	seen := map[string]bool{}
+	filepath.Walk(root, func(p string, info os.FileInfo, err error) error {
+		if err != nil || info.IsDir() || !strings.HasSuffix(p, ".go") {
+			return nil
+		}
+		f, err := parser.ParseFile(fset, p, nil, 0)
+		if err != nil {
+			if perr == "" {
+				perr = err.Error()
+			}
+			return nil
+		}
+		nfiles++
+		rel, _ := filepath.Rel(root, p)
+		ast.Inspect(f, func(n ast.Node) bool {
+			if id, ok := n.(*ast.Ident); ok && strings.HasPrefix(id.Name, prefix) {
+				k := id.Name + " in " + rel
+				if !seen[k] {
+					seen[k] = true
+					hits = append(hits, k)
+				}
+			}
+			return true
+		})
+		return nil
+	})
+	sort.Strings(hits)
+	return
 }
 
 func runReplayFile(path string) int {
@@ -938,9 +992,10 @@ func runReplayFile(path string) int {
 			Spec string     `json:"spec"`
 			Args []string   `json:"args"`
 			More [][]string `json:"more"`
+			ForbidIdent string `json:"forbid_ident"`
 		}
 		if json.Unmarshal(b, &bd) == nil && bd.Spec != "" {
-			cfg := CheckCfg{Property: doc.Property, BuildOnly: []GenCfg{{Spec: bd.Spec, Args: bd.Args, More: bd.More}}}
+			cfg := CheckCfg{Property: doc.Property, BuildOnly: []GenCfg{{Spec: bd.Spec, Args: bd.Args, More: bd.More, ForbidIdent: bd.ForbidIdent}}}
 			dir := filepath.Join(envOr("VERIF_BUILD", filepath.Join(verifRoot, ".build")), doc.Check+"-replay")
 			os.MkdirAll(dir, 0o755)
 			return runBuildOnly(doc.Check+"-replay", cfg, "quick", envOr("VERIF_REPO", "/repo"), dir, 0, time.Now())
